@@ -140,9 +140,62 @@ def check_ungrouped(ctx: Ctx):
     ctx.decide("R12.2", f, f.node, base + ":no-mutation", "no in-place store reaches the caller's arrays", not bad, None, nontrivial=False)
 
 
+def check_group_specifications(ctx: Ctx):
+    """R12.6: every accepted way of writing a partition - a dict of LabelGroup objects, a dict
+    of (labels, single_instance) tuples, a list of LabelGroup objects - yields groups with exactly
+    the given labels, kind and single-instance flag under the given (lower-cased) names.
+    SegmentationClassGroups.__init__ is run on concrete specifications."""
+    prog = ctx.prog
+    lg = prog.cls("utils.label_group:LabelGroup")
+    lmg = prog.cls("utils.label_group:LabelMergeGroup")
+    scg = prog.cls("utils.segmentation_class:SegmentationClassGroups")
+    init = scg.lookup("__init__")
+
+    def describe(o):
+        out = {}
+        gd = None
+        for k, v in o.attrs.items():
+            if isinstance(v, dict) and v and all(isinstance(x, Obj) for x in v.values()):
+                gd = v
+        if gd is None:
+            return None
+        for name, g in gd.items():
+            labels = si = None
+            for k, v in g.attrs.items():
+                if isinstance(v, list) and all(isinstance(x, int) for x in v):
+                    labels = list(v)
+                elif isinstance(v, bool):
+                    si = v
+            out[name] = (g.cls.name, labels, si)
+        return out
+
+    specs = {
+        "dict-of-tuples": ({"Liver": ([1, 2], False), "spleen": ([3], True), "rib": (4, False)}, {"liver": ("LabelGroup", [1, 2], False), "spleen": ("LabelGroup", [3], True), "rib": ("LabelGroup", [4], False)}),
+        "dict-of-groups": (lambda: {"a": construct(prog, lg, {"value_labels": [1, 2], "single_instance": False}), "B": construct(prog, lmg, {"value_labels": [3, 4], "single_instance": False}), "c": construct(prog, lg, {"value_labels": 5, "single_instance": True})}, {"a": ("LabelGroup", [1, 2], False), "b": ("LabelMergeGroup", [3, 4], False), "c": ("LabelGroup", [5], True)}),
+        "list-of-groups": (lambda: [construct(prog, lg, {"value_labels": [1, 2], "single_instance": False}), construct(prog, lg, {"value_labels": 5, "single_instance": True})], {"group_0": ("LabelGroup", [1, 2], False), "group_1": ("LabelGroup", [5], True)}),
+    }
+    for name, (spec, want) in specs.items():
+        construct_name = f"{scg.qual}.__init__:{name}"
+        try:
+            o = construct(prog, scg, {"groups": spec() if callable(spec) else spec})
+        except Undecided as e:
+            if ": raise " in str(e) and "[]" in str(e):
+                # concrete arguments, no open decision: the constructor really raises
+                ctx.violated("R12.6", init, init.node if init else None, construct_name, "a valid group specification is rejected by the constructor", {"outcome": str(e)[-160:]})
+            else:
+                ctx.undecided("R12.6", init, init.node if init else None, construct_name, f"group construction not evaluable: {e}")
+            continue
+        got = describe(o) if isinstance(o, Obj) else None
+        ctx.decide("R12.6", init, init.node if init else None, construct_name, "the specification yields groups with exactly the given names, labels, kind and single-instance flag", (got == want) if got is not None else None, {"got": repr(got)[:300], "want": repr(want)[:300]})
+
+
 def check(ctx: Ctx):
     check_grouped(ctx)
     check_ungrouped(ctx)
+    try:
+        check_group_specifications(ctx)
+    except (Undecided, AnchorMissing) as e:
+        ctx.undecided("R12.6", None, None, "R12.6:check_group_specifications", f"{type(e).__name__}: {e}")
 
 
 _E = "panoptica/panoptica_evaluator.py"
@@ -150,6 +203,8 @@ _L = "panoptica/utils/label_group.py"
 _S = "panoptica/utils/segmentation_class.py"
 
 VARIANTS = [
+    Variant("C12-m-tuple-single-from-labels", "R12.6", "mutant", [(_S, "self.__group_dictionary[name_lower] = LabelGroup(g[0], g[1])", "self.__group_dictionary[name_lower] = LabelGroup(g[0], g[0])")]),
+    Variant("C12-m-tuple-names-not-lowered", "R12.6", "mutant", [(_S, "                name_lower = str(i).lower()", "                name_lower = str(i)")]),
     Variant("C12-m-no-pred-check", "R12.1", "mutant", [(_E, "        self.__segmentation_class_groups.has_defined_labels_for(\n            processing_pair.prediction_arr, raise_error=True\n        )\n", "")], control=True),
     Variant("C12-m-no-raise", "R12.1", "mutant", [(_E, "            processing_pair.reference_arr, raise_error=True\n", "            processing_pair.reference_arr, raise_error=False\n")]),
     Variant("C12-m-check-pred-twice", "R12.1", "mutant", [(_E, "            processing_pair.reference_arr, raise_error=True\n", "            processing_pair.prediction_arr, raise_error=True\n")]),
